@@ -1263,22 +1263,32 @@ explore_race(const char *name, int mode, int p, int sw, int io, int total)
 	c.budget[VB_WAKE1]   = 1;
 	c.budget[VB_ENV]     = -1;
 	c.total              = total;
-	vx_explore(&c, NULL);
+	vx_stats st;
+	memset(&st, 0, sizeof(st));
+	vx_explore(&c, &st);
+	g_exec += st.executions;
+	g_wall += st.wall_s;
 }
 
-static rqcfg QC[32];
-static int   nqc;
-static rpcfg PC[32];
-static int   npc;
+// ordered plan: most valuable scenarios first, the tail is skipped when the
+// (load dependent) measured rate says it cannot finish before the deadline
+typedef struct plan {
+	int   is_rep;
+	rqcfg q;
+	rpcfg p;
+} plan;
+static plan PL[40];
+static int  npl;
 
 static void
 add_req(const char *tag, int variant, int resend, int nal, int depth, int plen,
     const int *pfx)
 {
-	rqcfg *c = &QC[nqc++];
-	memset(c, 0, sizeof(*c));
-	snprintf(c->name, sizeof(c->name), "req-%s-%s-a%d-d%d", tag,
-	    variant ? "sock+ctx" : "2ctx", nal, depth);
+	rqcfg *c = &PL[npl].q;
+	PL[npl++].is_rep = 0;
+	snprintf(c->name, sizeof(c->name), "req-%s-%s%s-a%d-d%d", tag,
+	    variant ? "sock+ctx" : "2ctx", resend < 0 ? "-noresend" : "", nal,
+	    depth);
 	c->variant = variant;
 	c->resend  = resend;
 	c->nal     = nal;
@@ -1291,8 +1301,8 @@ add_req(const char *tag, int variant, int resend, int nal, int depth, int plen,
 static void
 add_rep(const char *tag, int variant, int depth, int plen, const int *pfx)
 {
-	rpcfg *c = &PC[npc++];
-	memset(c, 0, sizeof(*c));
+	rpcfg *c = &PL[npl].p;
+	PL[npl++].is_rep = 1;
 	snprintf(c->name, sizeof(c->name), "rep-%s-%s-d%d", tag,
 	    variant ? "sock+ctx" : "2ctx", depth);
 	c->variant = variant;
@@ -1316,68 +1326,74 @@ main(int argc, char **argv)
 	static const int QP5[] = { Q_SEND0, Q_RECV0, Q_CANCEL0, Q_SEND1,
 		Q_RECV1 }; // cancelled id, other ctx waits
 	static const int RESEND = 60000, INF = NNG_DURATION_INFINITE;
-	int dq = T ? 5 : 4; // initial-state depth
-	int ds = T ? 4 : 3; // seeded-state depth
-	// quick: the two malformed-frame letters only from the seeded states
-	add_req("P0", 0, RESEND, T ? Q_NLETTER : Q_NLETTER - 2, dq, 0, NULL);
-	add_req("P3", 0, RESEND, Q_NLETTER, ds, 4, QP3);
-	add_req("P2", 0, RESEND, Q_NLETTER, ds, 3, QP2);
-	add_req("P4", 0, INF, Q_NLETTER, ds, 3, QP4);
-	add_req("P0", 1, INF, Q_NLETTER, ds, 0, NULL);
-	if (T) {
-		add_req("P5", 0, RESEND, Q_NLETTER, ds, 5, QP5);
-		add_req("P0", 1, RESEND, Q_NLETTER - 2, 5, 0, NULL);
-		add_req("P1", 0, INF, Q_NLETTER, ds, 2, QP1);
-		add_req("P2", 1, RESEND, Q_NLETTER, ds, 3, QP2);
-	}
-
 	// seeded non-initial REP states
 	static const int PP1[] = { P_Q0H2, P_Q1H1, P_RECV0,
 		P_RECV1 }; // both hold a request, different peers / lengths
 	static const int PP2[] = { P_RECV0, P_RECV1 }; // both wait
 	static const int PP3[] = { P_Q0H2, P_RECV0, P_SEND0,
 		P_Q1H1 }; // answered once, next request from the other peer waits
-	int dp  = T ? 6 : 4;
-	int dps = T ? 5 : 3;
-	add_rep("P0", 0, dp, 0, NULL);
-	add_rep("P0", 1, T ? 5 : 4, 0, NULL);
-	add_rep("P1", 0, dps, 4, PP1);
-	add_rep("P3", 1, dps, 4, PP3);
-	add_rep("P2", 0, dps - (T ? 1 : 0), 2, PP2);
-	if (T) {
-		add_rep("P1", 1, dps - 1, 4, PP1);
+	const int A = Q_NLETTER;
+	int       dq, ds, dp, dps;
+	if (!T) {
+		dq = 4, ds = 3, dp = 4, dps = 3;
+		// the two malformed-frame letters only from the seeded states
+		add_req("P0", 0, RESEND, A - 2, 4, 0, NULL);
+		add_rep("P0", 0, 4, 0, NULL);
+		add_rep("P0", 1, 4, 0, NULL);
+		add_req("P3", 0, RESEND, A, 3, 4, QP3);
+		add_req("P2", 0, RESEND, A, 3, 3, QP2);
+		add_rep("P1", 0, 3, 4, PP1);
+		add_req("P4", 0, INF, A, 3, 3, QP4);
+		add_rep("P3", 1, 3, 4, PP3);
+		add_req("P0", 1, INF, A, 3, 0, NULL);
+		add_rep("P2", 0, 3, 2, PP2);
+	} else {
+		dq = 5, ds = 4, dp = 6, dps = 5;
+		add_req("P0", 0, RESEND, A, 5, 0, NULL);
+		add_rep("P0", 0, 5, 0, NULL);
+		add_rep("P0", 1, 5, 0, NULL);
+		add_req("P3", 0, RESEND, A, 4, 4, QP3);
+		add_req("P2", 0, RESEND, A, 4, 3, QP2);
+		add_req("P4", 0, INF, A, 4, 3, QP4);
+		add_req("P0", 1, INF, A, 4, 0, NULL);
+		add_req("P5", 0, RESEND, A, 4, 5, QP5);
+		add_rep("P1", 0, 5, 4, PP1);
+		add_rep("P3", 1, 5, 4, PP3);
+		add_rep("P2", 0, 4, 2, PP2);
+		add_rep("P1", 1, 4, 4, PP1);
+		add_rep("P0", 0, 6, 0, NULL);
+		add_req("P0", 1, RESEND, A - 2, 5, 0, NULL);
+		add_req("P1", 0, INF, A, 4, 2, QP1);
+		add_req("P2", 1, RESEND, A, 4, 3, QP2);
 		add_rep("P0", 1, 6, 0, NULL);
 	}
 
 	int skipped = 0;
-	{
-		// quick: <= 2 schedule deviations; thorough: <= 3 (queued reply,
-		// which also has I/O choice points) / <= 4
-		int p = T ? 2 : 1, sw = T ? 2 : 1;
-		explore_race("race-queued-reply", 0, p, sw, 1, T ? 3 : 2);
-		explore_race("race-reply-cancel", 1, p, sw, 0, T ? 4 : 2);
-		explore_race("race-reply-send", 2, p, sw, 0, T ? 4 : 2);
-	}
-	// interleave so that both sides are covered even if the deadline hits
-	for (int i = 0; i < nqc || i < npc; i++) {
-		if (i < nqc) {
-			double need = 1;
-			for (int k = 0; k < QC[i].depth; k++)
-				need *= QC[i].nal;
-			if (!affordable(need))
-				skipped++;
-			else
-				explore(QC[i].name, run_req, &QC[i]);
+	for (int i = 0; i < npl; i++) {
+		if (i == 3) {
+			// schedule exploration of the three races: quick <= 2
+			// deviations, thorough <= 3 (4 for the small reply||cancel
+			// tree); scheduled after the three main enumerations
+			if (affordable(T ? 12000 : 1500)) {
+				explore_race("race-queued-reply", 0, 1, T ? 2 : 1, 1,
+				    T ? 3 : 2);
+				explore_race("race-reply-cancel", 1, T ? 2 : 1,
+				    T ? 2 : 1, 0, T ? 4 : 2);
+				explore_race("race-reply-send", 2, T ? 2 : 1, T ? 2 : 1,
+				    0, T ? 3 : 2);
+			} else
+				skipped += 3;
 		}
-		if (i < npc) {
-			double need = 1;
-			for (int k = 0; k < PC[i].depth; k++)
-				need *= P_NLETTER;
-			if (!affordable(need))
-				skipped++;
-			else
-				explore(PC[i].name, run_rep, &PC[i]);
-		}
+		double need = 1;
+		int    d    = PL[i].is_rep ? PL[i].p.depth : PL[i].q.depth;
+		for (int k = 0; k < d; k++)
+			need *= PL[i].is_rep ? P_NLETTER : PL[i].q.nal;
+		if (!affordable(need))
+			skipped++;
+		else if (PL[i].is_rep)
+			explore(PL[i].p.name, run_rep, &PL[i].p);
+		else
+			explore(PL[i].q.name, run_req, &PL[i].q);
 	}
 	vx_note("alphabet_req",
 	    "%d letters: send/recv(aio)/cancel x 2 participants, reply(x) x in "
@@ -1392,6 +1408,6 @@ main(int argc, char **argv)
 	    P_NLETTER);
 	vx_note("bounds", "req depth %d (seeded %d), rep depth %d (seeded %d), "
 	                  "scenarios skipped for time: %d of %d",
-	    dq, ds, dp, dps, skipped, nqc + npc);
+	    dq, ds, dp, dps, skipped, npl + 3);
 	return vx_finish();
 }
